@@ -139,6 +139,8 @@ def extractor_specs():
         # an extractor whose fields are named like eliot's own (the truthful values must win on end messages)
         st.builds(lambda x: {"fields": {"reason": "extractor-reason-%d" % x, "code": x}}, st.integers(0, 9)),
         st.builds(lambda x: {"fields": {"exception": "extractor.Name%d" % x, "traceback": "extractor-traceback", "code": x}}, st.integers(0, 9)),
+        # an extractor handing out a dict it keeps (e.g. `lambda e: e.details`)
+        st.builds(lambda x, y: {"fields": {"x": x, "y": [y]}, "persistent": True}, st.integers(0, 9), st.text(max_size=3)),
 
         st.sampled_from(RAISABLE).map(lambda i: {"raise": i}),
     )
